@@ -406,11 +406,22 @@ func (c *Client) sendWithWriter(writer io.Writer, packet []byte) error {
 
 // Loop: Receive data from server
 func (c *Client) recv(keepaliveQuit chan<- struct{}) {
-	defer close(keepaliveQuit)
+	// The keepalive belongs to this session. It is stopped before the end of the session is reported, not after:
+	// the handlers may set up the next connection on the same transport (a StreamManager reconnects from within
+	// the event), and a keepalive of the old session must not write to it, nor to a transport whose dial failed.
+	keepaliveStopped := false
+	stopKeepalive := func() {
+		if !keepaliveStopped {
+			keepaliveStopped = true
+			close(keepaliveQuit)
+		}
+	}
+	defer stopKeepalive()
 
 	for {
 		val, err := stanza.NextPacket(c.transport.GetDecoder())
 		if err != nil {
+			stopKeepalive()
 			c.ErrorHandler(err)
 			c.disconnected(c.Session.SMState)
 			return
@@ -419,6 +430,7 @@ func (c *Client) recv(keepaliveQuit chan<- struct{}) {
 		// Handle stream errors
 		switch packet := val.(type) {
 		case stanza.StreamError:
+			stopKeepalive()
 			c.router.route(c, val)
 			c.ErrorHandler(errors.New("stream error: " + packet.Error.Local))
 			// A stream error is unrecoverable (RFC 6120 4.9.1.1): close our side, then report it. The report comes
@@ -441,6 +453,7 @@ func (c *Client) recv(keepaliveQuit chan<- struct{}) {
 			// TCP messages should arrive in order, so we can expect to get nothing more after this occurs
 			c.transport.ReceivedStreamClose()
 			// The stream is over: report it like any other loss of the connection
+			stopKeepalive()
 			c.disconnected(c.Session.SMState)
 			return
 		case stanza.Message, stanza.Presence, *stanza.IQ:
